@@ -89,7 +89,7 @@ Definition spsa_body (fl : flags) (thr : Q) (v : nat) (maxfev : option Z) (s1 : 
 
 Lemma spsa_step_body fl thr v maxfev s i :
   spsa_step fl thr v maxfev s i
-  = spsa_body fl thr v maxfev (if done s || (si_n i <? nfe s)%Z then spsa_init else s) i.
+  = spsa_body fl thr v maxfev (if done s || boundary_hit fl (si_n i) (nfe s) then spsa_init else s) i.
 Proof. reflexivity. Qed.
 
 (* ------------------------------------------------------------------------------------------------ invariant *)
@@ -149,13 +149,14 @@ Proof. split; reflexivity. Qed.
 (* one step of the machine against one step of the specification *)
 Lemma spsa_step_ok thr v maxfev seg lastn closed s i :
   spsa_core maxfev seg s -> nfe s = lastn -> done s = closed ->
-  let seg' := if closed || (si_n i <? lastn)%Z then [] else seg in
+  let seg' := if closed || (si_n i <=? lastn)%Z then [] else seg in
   exists s', spsa_step repaired thr v maxfev s i = (s', Ok (spsa_answer thr v maxfev seg' i))
              /\ spsa_core maxfev (seg' ++ [i]) s' /\ nfe s' = si_n i
              /\ done s' = spsa_criterion_fired thr v maxfev seg' i.
 Proof.
   intros C N D seg'. rewrite spsa_step_body, N, D. subst seg'.
-  destruct (closed || (si_n i <? lastn)%Z) eqn:E.
+  change (boundary_hit repaired (si_n i) lastn) with (si_n i <=? lastn)%Z.
+  destruct (closed || (si_n i <=? lastn)%Z) eqn:E.
   - apply spsa_body_ok; [apply spsa_core_init|reflexivity].
   - apply spsa_body_ok; [exact C|]. apply orb_false_iff in E as [E _]. congruence.
 Qed.
@@ -179,8 +180,8 @@ Definition spsa_state_after (fl : flags) (thr : Q) (v : nat) (maxfev : option Z)
   fold_left (fun s i => fst (spsa_step fl thr v maxfev s i)) h s.
 
 (* the next callback is recognised as the start of a new optimiser run *)
-Definition recognised_start (s : spsa_state) (h2 : list spsa_in) : Prop :=
-  match h2 with [] => True | i :: _ => done s = true \/ (si_n i < nfe s)%Z end.
+Definition recognised_start (fl : flags) (s : spsa_state) (h2 : list spsa_in) : Prop :=
+  match h2 with [] => True | i :: _ => done s = true \/ boundary_hit fl (si_n i) (nfe s) = true end.
 
 Lemma spsa_run_app fl thr v maxfev h1 : forall s h2,
   spsa_run fl thr v maxfev s (h1 ++ h2)
@@ -190,17 +191,17 @@ Proof.
   simpl. destruct (spsa_step fl thr v maxfev s i) as [s' a] eqn:E. simpl. rewrite IH. reflexivity.
 Qed.
 
-Lemma spsa_run_restart fl thr v maxfev s h2 : recognised_start s h2 ->
+Lemma spsa_run_restart fl thr v maxfev s h2 : recognised_start fl s h2 ->
   spsa_run fl thr v maxfev s h2 = spsa_run fl thr v maxfev spsa_init h2.
 Proof.
   destruct h2 as [|i r]; [reflexivity|]. intros R. simpl. rewrite !spsa_step_body.
-  replace (done s || (si_n i <? nfe s)%Z) with true.
-  - destruct (done spsa_init || (si_n i <? nfe spsa_init)%Z); reflexivity.
-  - symmetry. apply orb_true_iff. destruct R as [R|R]; [left; exact R|right; apply Z.ltb_lt; exact R].
+  replace (done s || boundary_hit fl (si_n i) (nfe s)) with true.
+  - destruct (done spsa_init || boundary_hit fl (si_n i) (nfe spsa_init)); reflexivity.
+  - symmetry. apply orb_true_iff. destruct R as [R|R]; [left; exact R|right; exact R].
 Qed.
 
 Theorem spsa_segments_gen fl thr v maxfev h1 h2 :
-  recognised_start (spsa_state_after fl thr v maxfev spsa_init h1) h2 ->
+  recognised_start fl (spsa_state_after fl thr v maxfev spsa_init h1) h2 ->
   spsa_run fl thr v maxfev spsa_init (h1 ++ h2)
   = spsa_run fl thr v maxfev spsa_init h1 ++ spsa_run fl thr v maxfev spsa_init h2.
 Proof. intros R. rewrite spsa_run_app. f_equal. apply spsa_run_restart. exact R. Qed.
@@ -209,11 +210,14 @@ Theorem spsa_segments thr v maxfev h1 h2 :
   match h2 with
   | [] => True
   | i :: _ => done (spsa_state_after repaired thr v maxfev spsa_init h1) = true
-              \/ (si_n i < nfe (spsa_state_after repaired thr v maxfev spsa_init h1))%Z
+              \/ (si_n i <= nfe (spsa_state_after repaired thr v maxfev spsa_init h1))%Z
   end ->
   spsa_run repaired thr v maxfev spsa_init (h1 ++ h2)
   = spsa_run repaired thr v maxfev spsa_init h1 ++ spsa_run repaired thr v maxfev spsa_init h2.
-Proof. apply spsa_segments_gen. Qed.
+Proof.
+  intros R. apply spsa_segments_gen. destruct h2 as [|i r]; [exact I|].
+  destruct R as [R|R]; [left; exact R|right; apply Z.leb_le; exact R].
+Qed.
 
 Lemma spsa_state_after_snoc fl thr v maxfev s h i :
   spsa_state_after fl thr v maxfev s (h ++ [i])
@@ -223,7 +227,7 @@ Proof. unfold spsa_state_after. rewrite fold_left_app. reflexivity. Qed.
 (* every step stores the evaluation counter of its callback, whatever the flags and whether or not it raises *)
 Lemma spsa_step_nfe fl thr v maxfev s i : nfe (fst (spsa_step fl thr v maxfev s i)) = si_n i.
 Proof.
-  rewrite spsa_step_body. generalize (if done s || (si_n i <? nfe s)%Z then spsa_init else s). intros s1.
+  rewrite spsa_step_body. generalize (if done s || boundary_hit fl (si_n i) (nfe s) then spsa_init else s). intros s1.
   unfold spsa_body. cbv zeta.
   destruct (maxfev_hit maxfev (si_n i)); [reflexivity|]. destruct (negb (si_acc i)); [reflexivity|].
   match goal with |- context [if ?b then _ else _] => destruct b end; [reflexivity|].
@@ -274,7 +278,7 @@ Qed.
 (* any number of optimiser runs *)
 Theorem spsa_segments_list fl thr v maxfev (runs : list (list spsa_in)) :
   (forall j, (0 < j < length runs)%nat ->
-     recognised_start (spsa_state_after fl thr v maxfev spsa_init (concat (firstn j runs))) (nth j runs [])) ->
+     recognised_start fl (spsa_state_after fl thr v maxfev spsa_init (concat (firstn j runs))) (nth j runs [])) ->
   spsa_run fl thr v maxfev spsa_init (concat runs) = concat (map (spsa_run fl thr v maxfev spsa_init) runs).
 Proof.
   induction runs as [|r rs IH] using rev_ind; intros H; [reflexivity|].
@@ -300,7 +304,7 @@ Fixpoint spsa_seg_after (thr : Q) (v : nat) (maxfev : option Z) (seg : list spsa
   match h with
   | [] => (seg, lastn, closed)
   | i :: r =>
-      let seg' := if closed || (si_n i <? lastn)%Z then [] else seg in
+      let seg' := if closed || (si_n i <=? lastn)%Z then [] else seg in
       spsa_seg_after thr v maxfev (seg' ++ [i]) (si_n i) (spsa_criterion_fired thr v maxfev seg' i) r
   end.
 
@@ -345,7 +349,7 @@ Proof. split; [reflexivity|]. intros H. exfalso. apply H. reflexivity. Qed.
 Lemma best_wf_step fl thr v maxfev s i : best_wf s -> best_wf (fst (spsa_step fl thr v maxfev s i)).
 Proof.
   intros W. rewrite spsa_step_body. apply best_wf_body.
-  destruct (done s || (si_n i <? nfe s)%Z); [apply best_wf_init|exact W].
+  destruct (done s || boundary_hit fl (si_n i) (nfe s)); [apply best_wf_init|exact W].
 Qed.
 
 Lemma spsa_state_after_cons fl thr v maxfev s i h :
@@ -387,7 +391,7 @@ Qed.
 Lemma spsa_seg_after_snoc thr v maxfev h i : forall seg lastn closed,
   spsa_seg_after thr v maxfev seg lastn closed (h ++ [i])
   = (let '(seg1, lastn1, closed1) := spsa_seg_after thr v maxfev seg lastn closed h in
-     let seg' := if closed1 || (si_n i <? lastn1)%Z then [] else seg1 in
+     let seg' := if closed1 || (si_n i <=? lastn1)%Z then [] else seg1 in
      (seg' ++ [i], si_n i, spsa_criterion_fired thr v maxfev seg' i)).
 Proof.
   induction h as [|j h IH]; intros seg lastn closed; [reflexivity|]. simpl. apply IH.
@@ -399,8 +403,8 @@ Lemma spsa_spec_ok thr v maxfev h : forall seg lastn closed,
   /\ Forall (fun a => is_ok a = true) (spsa_spec thr v maxfev seg lastn closed h).
 Proof.
   induction h as [|i h IH]; intros seg lastn closed; simpl; [split; [reflexivity|constructor]|].
-  destruct (IH ((if closed || (si_n i <? lastn)%Z then [] else seg) ++ [i]) (si_n i)
-               (spsa_criterion_fired thr v maxfev (if closed || (si_n i <? lastn)%Z then [] else seg) i)) as [L F].
+  destruct (IH ((if closed || (si_n i <=? lastn)%Z then [] else seg) ++ [i]) (si_n i)
+               (spsa_criterion_fired thr v maxfev (if closed || (si_n i <=? lastn)%Z then [] else seg) i)) as [L F].
   split; [rewrite L; reflexivity|constructor; [reflexivity|exact F]].
 Qed.
 
@@ -408,3 +412,152 @@ Corollary spsa_no_exception thr v maxfev h :
   length (spsa_run repaired thr v maxfev spsa_init h) = length h
   /\ Forall (fun a => is_ok a = true) (spsa_run repaired thr v maxfev spsa_init h).
 Proof. rewrite spsa_refines. apply spsa_spec_ok. Qed.
+
+(* ------------------------------------------------------------------------------------------------ run boundary: legacy witness *)
+(* fix 05ee1f9 reverted: a new optimiser run that starts with the SAME counter as the last callback of the previous
+   run is not recognised; the two runs are treated as one history *)
+Theorem spsa_run_boundary_refuted :
+  exists thr v h1 h2,
+    (exists n f1 f2, h1 = [mk_in n f1] /\ h2 = [mk_in n f2])
+    /\ spsa_run legacy_run_boundary thr v None spsa_init (h1 ++ h2)
+       <> spsa_run legacy_run_boundary thr v None spsa_init h1 ++ spsa_run legacy_run_boundary thr v None spsa_init h2
+    /\ spsa_run repaired thr v None spsa_init (h1 ++ h2)
+       = spsa_run repaired thr v None spsa_init h1 ++ spsa_run repaired thr v None spsa_init h2.
+Proof.
+  exists (1 # 2), 0%nat, [mk_in 2 5], [mk_in 2 6]. split; [exists 2%Z, 5, 6; split; reflexivity|].
+  split; [vm_compute; discriminate | vm_compute; reflexivity].
+Qed.
+
+Example spsa_run_boundary_answers :
+  spsa_run legacy_run_boundary (1 # 2) 0 None spsa_init ([mk_in 2 5] ++ [mk_in 2 6]) = [Ok false; Ok true]
+  /\ spsa_run legacy_run_boundary (1 # 2) 0 None spsa_init [mk_in 2 5]
+     ++ spsa_run legacy_run_boundary (1 # 2) 0 None spsa_init [mk_in 2 6] = [Ok false; Ok false]
+  /\ spsa_run repaired (1 # 2) 0 None spsa_init ([mk_in 2 5] ++ [mk_in 2 6]) = [Ok false; Ok false].
+Proof. vm_compute. repeat split. Qed.
+
+(* ------------------------------------------------------------------------------------------------ runs of one optimiser configuration *)
+Fixpoint strictly_increasing (l : list Z) : Prop :=
+  match l with
+  | [] => True
+  | x :: r => match r with [] => True | y :: _ => (x < y)%Z /\ strictly_increasing r end
+  end.
+
+(* one optimiser run: at least one callback, counters strictly increase *)
+Definition run_wf (r : list spsa_in) : Prop := r <> [] /\ strictly_increasing (map si_n r).
+Definition first_n (r : list spsa_in) : option Z := option_map si_n (hd_error r).
+Definition last_n (r : list spsa_in) : option Z := option_map si_n (last_opt r).
+
+(* every adjacent pair r, r' of runs: the first counter of r' does not exceed the last counter of r *)
+Definition adjacent_runs_ok (runs : list (list spsa_in)) : Prop :=
+  forall j r r', nth_error runs j = Some r -> nth_error runs (S j) = Some r' ->
+    forall a b, first_n r' = Some a -> last_n r = Some b -> (a <= b)%Z.
+
+Lemma last_opt_last {A} (l : list A) d : l <> [] -> last_opt l = Some (last l d).
+Proof.
+  induction l as [|a l IH]; [congruence|]. intros _. destruct l as [|b l']; [reflexivity|].
+  change (last_opt (a :: b :: l')) with (last_opt (b :: l')). change (last (a :: b :: l') d) with (last (b :: l') d).
+  apply IH. discriminate.
+Qed.
+
+Lemma last_app_nonempty {A} (a l : list A) d : l <> [] -> last (a ++ l) d = last l d.
+Proof.
+  intros H. induction a as [|x a IH]; [reflexivity|]. simpl app.
+  destruct (a ++ l) eqn:E; [destruct a; [simpl in E; congruence|discriminate]|]. rewrite <- E in *. simpl. rewrite E. rewrite <- E. exact IH.
+Qed.
+
+Lemma firstn_S_nth_error {A} (l : list A) : forall j x, nth_error l j = Some x -> firstn (S j) l = firstn j l ++ [x].
+Proof.
+  induction l as [|a l IH]; intros [|j] x H; try discriminate.
+  - simpl in H. inversion H; subst. reflexivity.
+  - simpl in H. change (firstn (S (S j)) (a :: l)) with (a :: firstn (S j) l). rewrite (IH j x H). reflexivity.
+Qed.
+
+Lemma strictly_increasing_first_last l : strictly_increasing l ->
+  forall x y, hd_error l = Some x -> last_opt l = Some y -> (x <= y)%Z.
+Proof.
+  induction l as [|a l IH]; intros S x y Hx Hy; [discriminate|]. simpl in Hx. inversion Hx; subst a.
+  destruct l as [|b l'].
+  - simpl in Hy. inversion Hy; subst. lia.
+  - destruct S as [L S']. change (last_opt (x :: b :: l')) with (last_opt (b :: l')) in Hy.
+    specialize (IH S' b y eq_refl Hy). lia.
+Qed.
+
+Lemma hd_error_map {A B} (g : A -> B) l : hd_error (map g l) = option_map g (hd_error l).
+Proof. destruct l; reflexivity. Qed.
+
+Lemma run_wf_first_le_last r a b : run_wf r -> first_n r = Some a -> last_n r = Some b -> (a <= b)%Z.
+Proof.
+  intros [_ S] Ha Hb. apply (strictly_increasing_first_last (map si_n r) S).
+  - rewrite hd_error_map. exact Ha.
+  - rewrite last_opt_map. exact Hb.
+Qed.
+
+(* Consecutive runs of optimisers whose counters strictly increase within a run and whose next run never starts
+   above the last counter of the previous run: every run start is recognised, the answers are those of the
+   individual runs. *)
+Theorem spsa_segments_runs thr v maxfev runs : Forall run_wf runs -> adjacent_runs_ok runs ->
+  spsa_run repaired thr v maxfev spsa_init (concat runs)
+  = concat (map (spsa_run repaired thr v maxfev spsa_init) runs).
+Proof.
+  intros W Adj. apply spsa_segments_list. intros j [Hj0 Hj].
+  destruct j as [|j]; [lia|].
+  assert (Er' : nth_error runs (S j) = Some (nth (S j) runs [])) by (apply nth_error_nth'; exact Hj).
+  assert (Er : nth_error runs j = Some (nth j runs [])) by (apply nth_error_nth'; lia).
+  set (r' := nth (S j) runs []) in *. set (r := nth j runs []) in *.
+  rewrite Forall_forall in W.
+  destruct (W r (nth_error_In _ _ Er)) as [Nr Sr]. destruct (W r' (nth_error_In _ _ Er')) as [Nr' Sr'].
+  destruct r' as [|i rest] eqn:Dr'; [congruence|]. right.
+  change (boundary_hit repaired (si_n i) ?x) with (si_n i <=? x)%Z. apply Z.leb_le.
+  rewrite (firstn_S_nth_error runs j r Er), concat_app. simpl concat. rewrite app_nil_r.
+  rewrite (spsa_nfe_last repaired thr v maxfev _ i) by (destruct (concat (firstn j runs)); [simpl; exact Nr|discriminate]).
+  rewrite last_app_nonempty by exact Nr.
+  apply (Adj j r (i :: rest) Er Er'); [reflexivity|].
+  unfold last_n. rewrite (last_opt_last r i Nr). reflexivity.
+Qed.
+
+(* every run of one optimiser configuration issues its first callback with the same counter c *)
+Corollary spsa_first_count_constant thr v maxfev runs c : Forall run_wf runs ->
+  Forall (fun r => option_map si_n (hd_error r) = Some c) runs ->
+  spsa_run repaired thr v maxfev spsa_init (concat runs)
+  = concat (map (spsa_run repaired thr v maxfev spsa_init) runs).
+Proof.
+  intros W F. apply spsa_segments_runs; [exact W|].
+  intros j r r' Er Er' a b Ha Hb. rewrite Forall_forall in W, F.
+  pose proof (F r' (nth_error_In _ _ Er')) as Fa. unfold first_n in Ha. rewrite Fa in Ha. inversion Ha; subst a.
+  apply (run_wf_first_le_last r c b (W r (nth_error_In _ _ Er))); [exact (F r (nth_error_In _ _ Er))|exact Hb].
+Qed.
+
+(* the hypotheses are satisfiable: three runs, all starting at counter 2, the second a single callback *)
+Definition example_runs : list (list spsa_in) :=
+  [[mk_in 2 4; mk_in 4 3]; [mk_in 2 8]; [mk_in 2 4; mk_in 4 1; mk_in 6 1]].
+
+Example spsa_first_count_example :
+  Forall run_wf example_runs
+  /\ Forall (fun r => option_map si_n (hd_error r) = Some 2%Z) example_runs
+  /\ adjacent_runs_ok example_runs
+  /\ spsa_run repaired (1 # 2) 0 None spsa_init (concat example_runs)
+     = [Ok false; Ok true; Ok false; Ok false; Ok false; Ok true]
+  /\ concat (map (spsa_run repaired (1 # 2) 0 None spsa_init) example_runs)
+     = [Ok false; Ok true; Ok false; Ok false; Ok false; Ok true].
+Proof.
+  assert (W : Forall run_wf example_runs).
+  { unfold example_runs. repeat (constructor; [split; [discriminate|simpl; lia]|]). constructor. }
+  assert (F : Forall (fun r => option_map si_n (hd_error r) = Some 2%Z) example_runs).
+  { unfold example_runs. repeat (constructor; [reflexivity|]). constructor. }
+  split; [exact W|]. split; [exact F|]. split.
+  - intros j r r' Er Er' a b Ha Hb. rewrite Forall_forall in W, F.
+    pose proof (F r' (nth_error_In _ _ Er')) as Fa. unfold first_n in Ha. rewrite Fa in Ha. inversion Ha; subst a.
+    apply (run_wf_first_le_last r 2%Z b (W r (nth_error_In _ _ Er))); [exact (F r (nth_error_In _ _ Er))|exact Hb].
+  - vm_compute. split; reflexivity.
+Qed.
+
+(* ------------------------------------------------------------------------------------------------ the limit of the implicit reset *)
+(* NOT recognisable: the second run starts with a larger counter than the last callback of the first run, which
+   was not ended by the change criterion — indistinguishable from a continuation of the first run *)
+Example spsa_unrecognisable_example :
+  spsa_run repaired (1 # 2) 0 None spsa_init ([mk_in 2 5] ++ [mk_in 3 6]) = [Ok false; Ok true]
+  /\ spsa_run repaired (1 # 2) 0 None spsa_init [mk_in 2 5] ++ spsa_run repaired (1 # 2) 0 None spsa_init [mk_in 3 6]
+     = [Ok false; Ok false]
+  /\ spsa_run repaired (1 # 2) 0 None spsa_init ([mk_in 2 5] ++ [mk_in 3 6])
+     <> spsa_run repaired (1 # 2) 0 None spsa_init [mk_in 2 5] ++ spsa_run repaired (1 # 2) 0 None spsa_init [mk_in 3 6].
+Proof. vm_compute. repeat split. discriminate. Qed.
